@@ -2,7 +2,8 @@
   Engine `tmpldata` (C20): real `template.Template.Data` and the real webhook
   notifier's JSON payload (max_alerts truncation) vs `AM.TemplateData` / `AM.Trunc`.
 
-  alert token:  <p|f|z>|<labels>|<annotations>   p = ended an hour ago, f = ends in an hour, z = no end
+  alert token:  <p|f|z|P|F>|<labels>|<annotations>   p = ended an hour ago, f = ends in an hour, z = no end;
+                P / F = the same with the alert's Timeout flag set (EndsAt filled in from resolve_timeout): the model ignores the flag
   pairs:        k:v,k:v (sorted by key), '-' = none
     data <recvhex> <sr 0|1> <alerts ;-joined>         -> <dump>
     webhook <max> <recvhex> <alerts>                  -> trunc=<n> <dump>
@@ -32,7 +33,7 @@ def hour : Int := 3600000000000
 def parseAlert (s : String) : Option Alert :=
   match s.splitOn "|" with
   | [e, l, a] => some { labels := parsePairs l, annotations := parsePairs a,
-                        ends := if e = "p" then -hour else if e = "f" then hour else 0 }
+                        ends := if e = "p" ∨ e = "P" then -hour else if e = "f" ∨ e = "F" then hour else 0 }
   | _ => none
 
 def parseAlerts (s : String) : List Alert := (splitList ";" s).filterMap parseAlert
@@ -66,10 +67,19 @@ def specs (sent : List Alert) (obs : List String) : List Msg :=
     | a :: rest =>
       (c.all fun p => (get_ a).contains p ∧ rest.all fun b => TemplateData.get (get_ b) p.1 = p.2) ∧
       ((get_ a).all fun p => (rest.all fun b => TemplateData.get (get_ b) p.1 = p.2) → c.contains p)
+  -- the listed status of every alert is its own (EndsAt against now, nothing else), and the notification fires iff one of
+  -- the alerts handed to the integration does: both against the batch that was sent, not against the listed items
+  let wantS : List String := sent.map fun a => statusOf 0 a
+  let gotS : List String := items.map fun it => it.headD ""
+  let anySent := sent.any fun a => !resolved 0 a
   (if items.length ≠ sent.length ∨ gotL ≠ wantL then
      [Msg.propfail "data_lists_exactly_batch" "wrong-list" s!"sent={wantL} listed={gotL}"] else [])
+  ++ (if items.length = sent.length ∧ gotS ≠ wantS then
+     [Msg.propfail "data_lists_exactly_batch" "wrong-item-status" s!"batch={wantS} listed={gotS}"] else [])
   ++ (if (status = "firing") ≠ anyF then
      [Msg.propfail "status_firing_iff_any" "wrong-status" s!"status={status} any-firing={anyF}"] else [])
+  ++ (if items.length = sent.length ∧ (status = "firing") ≠ anySent then
+     [Msg.propfail "status_firing_iff_any" "status-vs-batch" s!"status={status} any-alert-of-the-batch-fires={anySent}"] else [])
   ++ (if !inter (·.labels) cl then [Msg.propfail "common_is_intersection" "labels" s!"common={showPairs cl}"] else [])
   ++ (if !inter (·.annotations) ca then [Msg.propfail "common_is_intersection" "annotations" s!"common={showPairs ca}"] else [])
 
@@ -78,6 +88,13 @@ def tagsOf (alerts : List Alert) (d : Data) : List Msg :=
   ++ (if alerts.length ≥ 2 ∧ d.commonLabels.isEmpty then [.tag "common:none"] else [])
   ++ (if (firing d).length > 0 ∧ (resolvedItems d).length > 0 then [.tag "status:mixed"] else [])
   ++ (if alerts.any (fun a => a.annotations.any (·.2 = "")) then [.tag "annotation:empty-value"] else [])
+  ++ (if alerts.all (fun a => resolved 0 a) ∧ !alerts.isEmpty then [.tag "status:all-resolved"] else [])
+
+/-- tags for the Timeout flag (read off the raw tokens: the model's alerts do not carry it) -/
+def flagTags (as : String) : List Msg :=
+  let es := (splitList ";" as).map fun t => (t.splitOn "|").headD ""
+  (if es.contains "P" then [.tag "timeout-flag:resolved"] else [])
+  ++ (if es.contains "F" then [.tag "timeout-flag:firing"] else [])
 
 def step (σ : St) (op obs : List String) : St × List Msg :=
   match op with
@@ -86,7 +103,7 @@ def step (σ : St) (op obs : List String) : St × List Msg :=
     let snt := sent (sr = "1") 0 alerts
     let d := data 0 (quoteMeta (unhexStr recv)) snt
     (σ, expectEq "data" (" ".intercalate (dump d)) (" ".intercalate obs) ++ specs snt obs ++ tagsOf snt d
-          ++ (if sr = "0" ∧ snt.length < alerts.length then [.tag "send_resolved:dropped"] else []))
+          ++ (if sr = "0" ∧ snt.length < alerts.length then [.tag "send_resolved:dropped"] else []) ++ flagTags as)
   | ["webhook", mx, recv, as] =>
     let alerts := parseAlerts as
     let (listed, cut) := AM.Trunc.truncAlerts (toNat! mx) alerts
@@ -98,7 +115,7 @@ def step (σ : St) (op obs : List String) : St × List Msg :=
       ++ (if toNat! mx ≠ 0 ∧ n > toNat! mx then [Msg.propfail "max_alerts_truncation" "over-max" s!"listed={n} max={mx}"] else [])
       ++ (if (toNat! mx = 0 ∨ alerts.length ≤ toNat! mx) ∧ obsCut ≠ 0 then [Msg.propfail "max_alerts_truncation" "cut-although-fits" s!"truncatedAlerts={obsCut}"] else [])
     (σ, expectEq "webhook" (" ".intercalate (s!"trunc={cut}" :: dump d)) (" ".intercalate obs)
-          ++ specs (alerts.take n) obs ++ pf ++ tagsOf listed d ++ (if cut > 0 then [.tag "webhook:truncated"] else [.tag "webhook:all"]))
+          ++ specs (alerts.take n) obs ++ pf ++ tagsOf listed d ++ (if cut > 0 then [.tag "webhook:truncated"] else [.tag "webhook:all"]) ++ flagTags as)
   | _ => (σ, [.diff "parse" "?" (" ".intercalate op)])
 
 def engine : Engine St where
